@@ -125,6 +125,7 @@ class Repo:
             for _ in range(3):
                 if not normalize.inline_new_helpers(self, inv, self.norm_log):
                     break
+                normalize.desugar_ifexp(self.modules)   # conditional expressions that came in with an expanded helper
                 self._index()
 
     def _index(self):
